@@ -443,7 +443,9 @@ Case is not significant in the string matching process.
 */
 func (r Condition) SetLogger(logger any) Condition {
 	if r.IsInit() {
-		r.condition.setLogger(logger)
+		if !r.getState(ronly) {
+			r.condition.setLogger(logger)
+		}
 	}
 
 	return r
